@@ -272,7 +272,8 @@ def run_all_in_one(params, st, keep_log=False):
         order = order[:params["limit"]]
     actors = [_raw(n, False) for n in order] + [_raw(n, True) for n in order]
     scn = _scn([], actors, home=params.get("home", "env"))
-    scn["case"] = {"all-in-one": len(order)}
+    scn["one_process"] = params.get("one_process", True)
+    scn["case"] = {"all-in-one": len(order), "one_process": scn["one_process"]}
 
     def extra(run, acts, phase):
         if phase == "pre":
@@ -365,7 +366,7 @@ def plan(tier, verif_seed):
                 units.append({"gen": "name", "name": name, "variant": variant, "unpack": unpack, "home": "env"})
         for home in ("default", "env-tilde", "env-slash", "env-rel"):
             units.append({"gen": "name", "name": name, "variant": "doc", "unpack": False, "home": home})
-    units.extend({"gen": "all", "home": "env"} for _ in range(2 if tier == "quick" else 24))
+    units.extend({"gen": "all", "home": "env", "one_process": i % 2 == 0} for i in range(2 if tier == "quick" else 24))
     units.append({"gen": "all", "home": "default"})
     units.extend({"gen": "unknown"} for _ in range(300 if tier == "quick" else 5000))
     units.extend({"gen": "unknown", "attr": a} for a in lookup_attribute_names())
